@@ -40,6 +40,26 @@ theorem zigzag_roundtrip (x p : Nat) (hx : x < 2 ^ 63) (hp : p < 2 ^ 63) :
 example : zigzagDecode (zigzagEncode 59990 60031) 60031 = 59990 :=
   zigzag_roundtrip 59990 60031 (by decide) (by decide)
 
+/-- The encoder is injective for a fixed prediction: two different values never share a code. -/
+theorem zigzag_injective (x y p : Nat) (hx : x < 2 ^ 63) (hy : y < 2 ^ 63) (hp : p < 2 ^ 63)
+    (h : zigzagEncode x p = zigzagEncode y p) : x = y := by
+  rw [← zigzag_roundtrip x p hx hp, ← zigzag_roundtrip y p hy hp, h]
+
+example : zigzagEncode 5 7 ≠ zigzagEncode 9 7 := by decide
+
+/-- … and the code is canonical: the decoder is a right inverse too wherever nothing wraps
+    (`v + 2p < 2^64`, e.g. all `u32` values), so two different code words never denote the same
+    value — the detail stream of a catalogue is determined by the catalogue (used by C04). -/
+theorem zigzag_code_canonical (v w p : Nat) (hv : v + 2 * p < 2 ^ 64) (hw : w + 2 * p < 2 ^ 64)
+    (h : zigzagDecode v p = zigzagDecode w p) : v = w := by
+  rw [← zigzagEncode_decode v p (by simpa using hv), ← zigzagEncode_decode w p (by simpa using hw), h]
+
+example : zigzagEncode (zigzagDecode 82 60031) 60031 = 82 ∧ zigzagDecode 82 60031 = 60072 := by decide
+
+/-- The hypothesis cannot be dropped: where `v + 2p` wraps, two code words collide. -/
+theorem zigzag_code_collision_when_wrapping :
+    zigzagDecode (2 ^ 63) (2 ^ 63 - 1) = zigzagDecode (2 ^ 63 - 1) (2 ^ 63 - 1) := by decide
+
 /-- The code of a value that differs from its prediction is at least 1, so the `+ 1` escape of
     the in-group-id coding (codes ≥ 2) never collides with the codes 0 ("id 0") and 1 ("as
     predicted"). -/
